@@ -1,6 +1,7 @@
 package props
 
 import (
+	"bytes"
 	"fmt"
 	"strings"
 	"time"
@@ -104,6 +105,56 @@ func C11(c *core.Ctx) {
 		for _, base := range []int{4040, 6090, 8140} {
 			for L := base; L <= base+c.N(70, 140); L++ {
 				sweepOne(c, mode, L, &kept)
+			}
+		}
+	}
+	// the caller's own buffer reused for successive messages of the same length (a template re-stamped in place, an
+	// encode into buf[:0]): the answer is a function of the bytes now in the slice, not of what was there before
+	{
+		buf := make([]byte, 0, 4096)
+		for i := 0; i < c.N(300, 5000); i++ {
+			id := fmt.Sprintf("id-%06d-%c", i*7919%1000000, 'a'+byte(i%26))
+			var err error
+			if i%2 == 0 {
+				m := &protocol.Message{Tag: "t", Timestamp: 5, Record: map[string]interface{}{"k": "v"}, Options: &protocol.MessageOptions{Chunk: id}}
+				buf, err = m.MarshalMsg(buf[:0])
+			} else {
+				m := &protocol.PackedForwardMessage{Tag: "t", EventStream: []byte{0x92, 0x01, 0x80}, Options: &protocol.MessageOptions{Chunk: id}}
+				buf, err = m.MarshalMsg(buf[:0])
+			}
+			if err != nil {
+				panic(err)
+			}
+			obs := chunkObs(func() (string, error) { return protocol.GetChunk(buf) })
+			obsRaw := chunkObs(func() (string, error) { return protocol.RawMessage(buf).Chunk() })
+			c.Eval()
+			if want := "ok(" + hx([]byte(id)) + ")"; obs != want || obsRaw != want {
+				c.Violation("judge-go", "c11-reused-buffer", fmt.Sprintf("message %d encoded into the caller's reused buffer carries chunk %q: GetChunk %s, RawMessage.Chunk %s", i, id, trunc(obs, 60), trunc(obsRaw, 60)), map[string]interface{}{"bytes": hx(buf)})
+				break
+			}
+		}
+		c.Hist("caller's buffer reused for successive messages")
+	}
+	// nesting far beyond anything a size estimate or a recursion guard would expect (the full decoders have no such
+	// limit: a message they decode has the chunk they see)
+	for _, depth := range []int{1000, 100001, 250000} {
+		for _, where := range []string{"record", "unknown option before chunk"} {
+			deep := append(bytes.Repeat([]byte{0x91}, depth), 0xc0)
+			var enc []byte
+			if where == "record" {
+				enc = append([]byte{0x94, 0xa1, 't', 0x05, 0x81, 0xa1, 'k'}, deep...)
+				enc = append(enc, 0x81, 0xa5, 'c', 'h', 'u', 'n', 'k', 0xa4, 'd', 'e', 'e', 'p')
+			} else {
+				enc = append([]byte{0x94, 0xa1, 't', 0x05, 0x80, 0x82, 0xa1, 'x'}, deep...)
+				enc = append(enc, 0xa5, 'c', 'h', 'u', 'n', 'k', 0xa4, 'd', 'e', 'e', 'p')
+			}
+			var full protocol.Message
+			_, ferr := full.UnmarshalMsg(enc)
+			obs := chunkObs(func() (string, error) { return protocol.GetChunk(enc) })
+			c.Eval()
+			c.Hist("deeply nested value before the chunk")
+			if ferr == nil && full.Options != nil && full.Options.Chunk == "deep" && obs != "ok("+hx([]byte("deep"))+")" {
+				c.Violation("judge-go", "c11-deep", fmt.Sprintf("a message whose %s is nested %d levels deep decodes with chunk \"deep\", GetChunk: %s", where, depth, trunc(obs, 80)), map[string]interface{}{"depth": depth, "where": where})
 			}
 		}
 	}
